@@ -328,6 +328,32 @@ func (r *run) readState() State {
 	return st
 }
 
+// cacheInvalid opens a fresh cache on the repository and validates every bug through it.
+func (r *run) cacheInvalid() []string {
+	var out []string
+	c, events := cache.NewRepoCache(r.repo)
+	for ev := range events {
+		if ev.Err != nil {
+			out = append(out, "cache cannot be opened: "+ev.Err.Error())
+		}
+	}
+	if len(out) > 0 {
+		return out
+	}
+	defer c.Close()
+	for _, id := range c.Bugs().AllIds() {
+		b, err := c.Bugs().Resolve(id)
+		if err != nil {
+			out = append(out, "cache: bug unreadable: "+err.Error())
+			continue
+		}
+		if err := b.Validate(); err != nil {
+			out = append(out, "cache: bug invalid: "+err.Error())
+		}
+	}
+	return out
+}
+
 // ---------------------------------------------------------------------------------------------
 // Differences between two states
 // ---------------------------------------------------------------------------------------------
